@@ -295,6 +295,45 @@ static void cmd_lapgrid(int sp, int sd)
    for (p = 1; p < 256; p += sp) for (d = 1; d <= 179; d += sd) lap_pair((unsigned)p << 7, d << 6);
 }
 
+
+/* the p0/decay Laplace code (ec_laplace_encode_p0 / ec_laplace_decode_p0): every value of -60..60 (plus the escape
+   boundaries up to 400) coded in front of the values 3 and -2 and read back; sign census over the 2^15 points */
+static void lapp0_pair(int p0, int decay)
+{
+   static const int extra[] = {62, 63, 64, 69, 70, 71, 76, 77, 78, 99, 100, 141, 148, 211, 351, 358, 400};
+   int fm, cnt[3] = {0, 0, 0}, k, first = 1, nv = 0, vals[300];
+   hx_arm(300);
+   for (fm = 0; fm < 32768; fm++) { ec_dec d; int v; dec_at(&d, (unsigned)fm); v = ec_laplace_decode_p0(&d, (opus_uint16)p0, (opus_uint16)decay); cnt[v == 0 ? 0 : v > 0 ? 1 : 2]++; }
+   for (k = -60; k <= 60; k++) vals[nv++] = k;
+   for (k = 0; k < (int)(sizeof extra / sizeof extra[0]); k++) { vals[nv++] = extra[k]; vals[nv++] = -extra[k]; }
+   js_open("lapp0"); js_int("p0", p0); js_int("dc", decay); js_arr_i("cnt", cnt, 3);
+   printf(",\"rt\":[");
+   for (k = 0; k < nv; k++) {
+      static unsigned char b[2048]; ec_enc e; ec_dec d; int d1, d2, d3, te, td;
+      memset(b, 0, sizeof b);
+      ec_enc_init(&e, b, sizeof b);
+      ec_laplace_encode_p0(&e, vals[k], (opus_uint16)p0, (opus_uint16)decay);
+      ec_laplace_encode_p0(&e, 3, (opus_uint16)p0, (opus_uint16)decay);
+      ec_laplace_encode_p0(&e, -2, (opus_uint16)p0, (opus_uint16)decay);
+      te = ec_tell(&e);
+      ec_enc_done(&e);
+      ec_dec_init(&d, b, sizeof b);
+      d1 = ec_laplace_decode_p0(&d, (opus_uint16)p0, (opus_uint16)decay);
+      d2 = ec_laplace_decode_p0(&d, (opus_uint16)p0, (opus_uint16)decay);
+      d3 = ec_laplace_decode_p0(&d, (opus_uint16)p0, (opus_uint16)decay);
+      td = ec_tell(&d);
+      printf(first ? "[%d,%d,%d,%d,%d,%d]" : ",[%d,%d,%d,%d,%d,%d]", vals[k], d1, d2, d3, te, td); first = 0;
+   }
+   printf("]"); js_close();
+}
+static void cmd_lapp0(void)
+{
+   static const int P[] = {1, 2, 100, 4096, 16000, 16384, 30000, 32000, 32700, 32766};
+   static const int D[] = {0, 1, 7, 8, 100, 4096, 16000, 16384, 24000, 30000, 32000, 32700, 32767};
+   int i, j;
+   for (i = 0; i < (int)(sizeof P / sizeof P[0]); i++) for (j = 0; j < (int)(sizeof D / sizeof D[0]); j++) lapp0_pair(P[i], D[j]);
+}
+
 /* ---------------------------------------------------------------- ICDF tables */
 typedef struct { const char *name; int sub; const unsigned char *t; int n; int ftb; } icdf_t;
 static icdf_t g_tabs[600]; static int g_ntabs;
@@ -443,6 +482,8 @@ static void cmd_replay(void)
          if (n < 2 || n > NDIM || k < 1 || k > KDIM - 2 || hV[n][k] > (1u << 26)) continue;
          sweep_one(n, k, hV[n][k]);
          if (bad >= 0 && (uint64_t)bad < hV[n][k]) pvq_emit(n, k, (uint32_t)bad, hV[n][k]);
+      } else if (strstr(ln, "\"k\":\"lapp0\"")) {
+         lapp0_pair((int)jget(ln, "p0", 16000), (int)jget(ln, "dc", 16000));
       } else if (strstr(ln, "\"k\":\"lap\"")) {
          lap_pair((unsigned)jget(ln, "fs", 128), (int)jget(ln, "dc", 64));
       } else if (strstr(ln, "\"k\":\"icdf") || strstr(ln, "\"k\":\"utab\"") || strstr(ln, "\"k\":\"cache\"") ||
@@ -466,6 +507,7 @@ int main(int argc, char **argv)
    else if (!strcmp(c, "pvq") && argc >= 7) cmd_pvq(strtoull(argv[2], 0, 10), (uint32_t)strtoul(argv[3], 0, 10), atoi(argv[4]), atoi(argv[5]), atoi(argv[6]));
    else if (!strcmp(c, "sweep") && argc >= 5) cmd_sweep((uint32_t)strtoul(argv[2], 0, 10), atoi(argv[3]), atoi(argv[4]));
    else if (!strcmp(c, "small") && argc >= 4) cmd_small((uint32_t)strtoul(argv[2], 0, 10), atoi(argv[3]));
+   else if (!strcmp(c, "lapp0")) cmd_lapp0();
    else if (!strcmp(c, "lapgrid") && argc >= 4) cmd_lapgrid(atoi(argv[2]), atoi(argv[3]));
    else if (!strcmp(c, "icdf")) cmd_icdf();
    else if (!strcmp(c, "replay")) cmd_replay();
